@@ -140,6 +140,10 @@ def one(ctx, shard, lk, fk, fwarm, D, R1, R2, method, uf, ws, vi, seed, x):
         ref = np.sum(ref_eval(upar, x), axis=0, keepdims=True)
         ctx.close("product.value", got, ref, facts=facts)
         unchanged(ctx, "product.operand", ub, u)
+        with ctx.guard("product.result_mutation", facts):
+            res.normalize()
+            unchanged(ctx, "product.operand_after_result_mutation", ub, u)
+            ctx.close("product.operand_value_after_result_mutation", np.asarray(u.evaluate_ln(J(x))), ref_eval(upar, x), facts=facts)
         if vi == 0 and R1 == 2 and ws == "cold":
             ctx.sample(dict(shard=shard["id"], op="product", R1=R1, Lambda=upar[0], nu=upar[1], ln_beta=upar[2], x=x))
         return
@@ -178,5 +182,12 @@ def one(ctx, shard, lk, fk, fwarm, D, R1, R2, method, uf, ws, vi, seed, x):
         ctx.fail(site + ".batch_size", "malformed_batch", observed=int(res.R), expected=int(ref.shape[0]), facts=facts)
     unchanged(ctx, site + ".left_operand", ub, u)
     unchanged(ctx, site + ".factor_operand", fb, f)
+    # ... and stay unchanged when the RESULT is changed in place afterwards (no aliasing of mutable state)
+    with ctx.guard(site + ".result_mutation", facts):
+        res.normalize()
+        res.integrate("x")
+        ua = {a: v for a, v in ub.items()}
+        unchanged(ctx, site + ".left_operand_after_result_mutation", ua, u)
+        ctx.close(site + ".left_value_after_result_mutation", np.asarray(u.evaluate_ln(J(x))), lu, facts=facts)
     if vi == 0 and R1 == 2 and R2 == 2 and ws == "cold" and uf:
         ctx.sample(dict(shard=shard["id"], op=method, update_full=uf, R1=R1, R2=R2, u=dict(Lambda=upar[0], nu=upar[1], ln_beta=upar[2]), f=dict(Lambda=fpar[0], nu=fpar[1], ln_beta=fpar[2]), x=x, expected_ln=ref))
